@@ -311,7 +311,7 @@ static void on_socket(int fd) {
     it.t = (int)ou[0];
     it.n = (size_t)ou[1];
     it.delay = ou[2];
-    it.err = EAGAIN;
+    it.err = it.t == OUT_ERR ? ((ou[1] & 1) ? EPIPE : ECONNRESET) : EAGAIN;
     k.push_out(fd, it);
   }
   size_t off = 0, si = 0, items = 0;
@@ -485,8 +485,8 @@ static void parse_common(const Case &c, Plan &p, size_t bodylen) {
       p.connect_kind = (A(0) & 1) ? CB_ASYNC_OK : CB_OK_NOW;
       p.connect_delay = std::min<int64_t>(std::max<int64_t>(A(1), 0), 1000000);
     } else if (op.k == "out" && p.outs.size() < 40) {
-      static const int T[] = {OUT_ACCEPT, OUT_ACCEPT, OUT_EAGAIN, OUT_EINTR, OUT_BLOCK};
-      p.outs.push_back({T[(size_t)(((A(0) % 5) + 5) % 5)], std::min<int64_t>(std::max<int64_t>(A(1), 1), 100000), std::min<int64_t>(std::max<int64_t>(A(2), 0), 2000000)});
+      static const int T[] = {OUT_ACCEPT, OUT_ACCEPT, OUT_EAGAIN, OUT_EINTR, OUT_BLOCK, OUT_ERR};  // index 5 (the connection breaks while the request is being sent) is only generated for C08
+      p.outs.push_back({T[(size_t)(((A(0) % 6) + 6) % 6)], std::min<int64_t>(std::max<int64_t>(A(1), 1), 100000), std::min<int64_t>(std::max<int64_t>(A(2), 0), 2000000)});
     } else if (op.k == "fd") {
       static const int FDS[] = {0, 1, 2, 3, 7, 39, 255, 256, 1023, 1024, 5000};
       p.want_fd = FDS[(size_t)(((A(0) % 11) + 11) % 11)];
@@ -671,7 +671,7 @@ static void gen_response_ops(Case &c, int tier, bool hostile) {
   if (*range<int>(0, 2) == 0) {  // the kernel takes the request in pieces
     int no = *range<int>(1, 8);
     for (int i = 0; i < no; i++)
-      c.push_back(Op("out", {*range<int>(0, 4), *rc::gen::weightedOneOf<int64_t>({{3, range<int64_t>(1, 30)}, {2, range<int64_t>(30, 600)}, {1, range<int64_t>(600, 9000)}}),
+      c.push_back(Op("out", {(hostile && *range<int>(0, 7) == 0) ? 5 : *range<int>(0, 4), *rc::gen::weightedOneOf<int64_t>({{3, range<int64_t>(1, 30)}, {2, range<int64_t>(30, 600)}, {1, range<int64_t>(600, 9000)}}),
                              *rc::gen::elementOf(std::vector<int64_t>{0, 1, 1000, 50000})}));
   }  // the process may have closed its standard descriptors
 }
